@@ -53,6 +53,10 @@ def good_message(rng, enc, i):
          'DE55': bytes.fromhex('9f2608' + '%016x' % rng.getrandbits(64) + '9f270180'), 'DE71': i + 1}
     if i % 3 == 0:
         m['DE72'] = gen.text(rng, enc, rng.randint(200, 900), 'alnum')
+    if i % 4 == 1:
+        # a record of several thousand bytes: its raw bytes are the context of the error, all of them
+        for b in (54, 72, 111, 127):
+            m['DE%d' % b] = gen.text(rng, enc, rng.randint(700, 999), 'alnum')
     return m
 
 
@@ -212,6 +216,8 @@ def judge(ctx, case):
         ctx.violation('record_number_off_by_%s:%s_level' % (off, level), dict(detail, reported=val.record_number, fault_kind=kind))
         return
     bc = val.binary_context_data
+    if bc and len(bc) > 2048:
+        ctx.count('faulty records whose context is longer than 2 KB')
     payload_from_k = (refb.payload_stream(data) if blocked else data)[len(head):]
     if want_ctx_exact is not None:
         if bc != want_ctx_exact:
@@ -275,6 +281,8 @@ def require(m):
         reasons.append('fill-byte length value never driven')
     if not {1, 2, 3} <= set(m['classes'].get('fault positions k', ())):
         reasons.append('fault positions beyond the first record not driven')
+    if not m['counters'].get('faulty records whose context is longer than 2 KB') and not m['violations']:
+        reasons.append('no faulty record longer than 2 KB')
     if not m['counters'].get('tool runs') and not m['violations']:
         reasons.append('tool never run')
     return reasons
